@@ -6,7 +6,7 @@
    conversions toR / toN; the operators of the remaining kinds are arbitrary. *)
 From Coq Require Import List Arith Bool Lia ZArith Reals Lra.
 From TLV Require Import Base.PyList Base.Tensor Base.Ops Model.Prox Proofs.ProxProofs Proofs.ProxProofsHard Proofs.ProxProofsSimplex
-  Proofs.ProxProofsMono.
+  Proofs.ProxProofsMono Proofs.ProxProofsRefute.
 From TLV Require Import Model.Constraints Proofs.ConstraintsProofs Proofs.ConstraintsProofsLoop Proofs.ConstraintsProofsKeys.
 Import ListNotations.
 Open Scope R_scope.
@@ -32,7 +32,35 @@ Proof.
   destruct (chunk_prefix (length (r :: rs)) (length r) (f (concat (r :: rs)))) as (rest & E). exists rest. left. exact E.
 Qed.
 
-(* ---- the operators of the five kinds, lifted to matrices *)
+(* ---- the coded l1-ball operator always lands in the ball: simplex_prox(|v|, p) * sign(v) has l1 norm <= sum of the simplex
+   point = p (inside the ball it is moved onto the sphere - not a projection, C12_l1ball_refuted - but it stays feasible) *)
+Lemma l1n_signed_le : forall (s v : list R), Forall (fun a => 0 <= a) s ->
+  l1n Rops (map (fun ab : R * R => fst ab * fsign Rops (snd ab)) (combine s v)) <= lsum Rops s.
+Proof.
+  assert (N : forall s, Forall (fun a => 0 <= a) s -> 0 <= lsum Rops s).
+  { induction 1; [cbn; lra | rewrite lsum_cons; lra]. }
+  induction s as [|a s IH]; intros v F.
+  - cbn. lra.
+  - inversion F as [|? ? Ha Fs]; subst. destruct v as [|b v].
+    + cbn [combine map]. rewrite lsum_cons. specialize (N s Fs). cbn. lra.
+    + cbn [combine map fst snd]. rewrite l1n_cons, lsum_cons. specialize (IH v Fs).
+      assert (Rabs (a * fsign Rops b) <= a).
+      { destruct (fsign_spec b) as [[_ ->] | [[_ ->] | [_ ->]]].
+        - rewrite Rmult_1_r, Rabs_pos_eq; lra.
+        - replace (a * -1) with (- a) by lra. rewrite Rabs_Ropp, Rabs_pos_eq; lra.
+        - rewrite Rmult_0_r, Rabs_R0. exact Ha. }
+      lra.
+Qed.
+
+Lemma soft_sparsity_feasible p v : 0 < p -> v <> [] -> l1n Rops (soft_sparsity_prox Rops p v) <= p.
+Proof.
+  intros Hp Hv. unfold soft_sparsity_prox.
+  assert (Hv' : map (fabs Rops) v <> []) by (destruct v; [congruence | discriminate]).
+  destruct (simplex_feasible p (map (fabs Rops) v) Hp Hv') as (F & S).
+  rewrite <- S at 2. apply l1n_signed_le. exact F.
+Qed.
+
+(* ---- the operators of the seven kinds, lifted to matrices *)
 Section Feasible.
   Context {P : Type} (truthy : P -> bool) (toR : P -> R) (toN : P -> nat) (other : kind -> P -> mat -> mat).
 
@@ -45,6 +73,8 @@ Section Feasible.
     | KMonotone => colwise Rops (monotonicity_prox Rops false) x
     | KHardSparsity => flatwise (hard_thresholding Rops (toN p)) x
     | KNormSparsity => flatwise (fun v => normalized_sparsity_with Rops (norm2 (hard_thresholding Rops (toN p) v)) (toN p) v) x
+    | KSoftSparsity => colwise Rops (soft_sparsity_prox Rops (toR p)) x
+    | KNormalize => flatwise (normalize Rops) x
     | _ => other k p x
     end.
 
@@ -112,6 +142,28 @@ Section Feasible.
     apply monotone_feasible.
   Qed.
 
+  Lemma soft_sparsity_range p x : 0 < toR p ->
+    transposed_columns (fun z => l1n Rops z <= toR p) (op_c12 KSoftSparsity p x).
+  Proof.
+    intros Hp. simpl. unfold colwise. eexists. split; [reflexivity|].
+    apply Forall_forall. intros z Hz. apply in_map_iff in Hz. destruct Hz as (c & <- & Hc).
+    apply soft_sparsity_feasible; [exact Hp | eapply cols_nonempty; eauto].
+  Qed.
+
+  (* max-normalisation: max |entry| = 1 unless the operator's input is zero (0/0 in the code) *)
+  Lemma normalize_range p x :
+    let y := op_c12 KNormalize p x in
+    0 < maxabs Rops (concat x) -> length (concat y) = length (concat x) -> maxabs Rops (concat y) = 1.
+  Proof.
+    intros y Hk Hl. subst y. simpl in *.
+    destruct (flatwise_prefix (normalize Rops) x) as (rest & [E | E]).
+    - assert (Lg : length (normalize Rops (concat x)) = length (concat x)) by (unfold normalize; apply map_length).
+      assert (rest = []) by (apply length_zero_iff_nil; rewrite E, app_length in Lg; lia).
+      subst rest. rewrite app_nil_r in E. rewrite <- E. apply maxnorm_partial. exact Hk.
+    - rewrite E in Hl. simpl in Hl. assert (H : concat x = []) by (apply length_zero_iff_nil; lia).
+      rewrite H in Hk. simpl in Hk. lra.
+  Qed.
+
   (* ---- composition with the skeleton *)
   Section CP.
     Variables (dM : mat) (msub madd : mat -> mat -> mat) (n : nat) (sp : list (kind * @zspec P)) (E : env (M := mat))
@@ -146,6 +198,21 @@ Section Feasible.
     Proof.
       intros Hin Hr. destruct (zcp_requested_in_range truthy dM op_c12 msub madd n sp E i0 fixed n_outer n_inner zero fs m _ s p run Hm Hupd Hin Hr) as (v & ->).
       apply monotone_range.
+    Qed.
+
+    Theorem cp_soft_sparsity s p : In (KSoftSparsity, s) sp -> zrequested truthy n s m p -> 0 < toR p ->
+      transposed_columns (fun z => l1n Rops z <= toR p) (nth m fs dM).
+    Proof.
+      intros Hin Hr Hp. destruct (zcp_requested_in_range truthy dM op_c12 msub madd n sp E i0 fixed n_outer n_inner zero fs m _ s p run Hm Hupd Hin Hr) as (v & ->).
+      apply soft_sparsity_range. exact Hp.
+    Qed.
+
+    Theorem cp_normalize s p : In (KNormalize, s) sp -> zrequested truthy n s m p ->
+      exists v, nth m fs dM = op_c12 KNormalize p v /\
+        (0 < maxabs Rops (concat v) -> length (concat (nth m fs dM)) = length (concat v) -> maxabs Rops (concat (nth m fs dM)) = 1).
+    Proof.
+      intros Hin Hr. destruct (zcp_requested_in_range truthy dM op_c12 msub madd n sp E i0 fixed n_outer n_inner zero fs m _ s p run Hm Hupd Hin Hr) as (v & Ev).
+      exists v. split; [exact Ev|]. rewrite Ev. apply normalize_range.
     Qed.
 
     Theorem cp_normalized_sparsity s p : In (KNormSparsity, s) sp -> zrequested truthy n s m p ->
